@@ -1176,9 +1176,9 @@ N('head-increment-commuted', ALL, IQ, "        self.head = (self.head + 1) % INP
 N('prune-bound-respelled', ALL, PROTO,
   """                .retain(|&k, _| k >= last_recv_frame - 2 * self.max_prediction as i32);""",
   """                .retain(|&k, _| k + 2 * self.max_prediction as i32 >= last_recv_frame);""", 'a >= b - c written as a + c >= b')
-M('A-prune-bound-one-window', ['C05', 'C18'], ['C05.A', 'C18.A', 'C05.O6'], PROTO,
-  """                .retain(|&k, _| k >= last_recv_frame - 2 * self.max_prediction as i32);""",
-  """                .retain(|&k, _| k >= last_recv_frame - self.max_prediction as i32);""", 'the decode-reference window halved')
+# (A-prune-bound-one-window -- `last_recv - max_prediction` instead of `- 2 * max_prediction` -- was a mutant of the pinned-expression table only; since the D2 repair a
+# reference that has left the window is re-acknowledged and the sender moves its base, so a narrower window costs round trips but breaks no property: withdrawn when
+# Cxx.A became advisory in round 12.)
 M('A-ring-index-off-by-one', ['C06'], ['C06.A', 'C06.O3'], SPEC,
   """                self.inputs[input.frame as usize % SPECTATOR_BUFFER_SIZE][player] = input;""",
   """                self.inputs[(input.frame as usize + 1) % SPECTATOR_BUFFER_SIZE][player] = input;""", 'spectator ring written one slot further')
